@@ -17,7 +17,7 @@ pub static DEF: PropertyDef = PropertyDef {
            uninjected history (everything except visit/turn counts of the evaluated function itself and functions it calls), plus peer events. \
            Non-trivial = the evaluation succeeded at a boundary whose state differs from the initial one or has pending text/choices, and at least one later op was compared.",
     assumptions: &["functions are pure by construction of the generator (no assignment to globals, no RANDOM, no externals inside functions)"],
-    runs_quick: 900,
+    runs_quick: 3600,
     runs_thorough: 50000,
     exhaustive_note: "every function of the program x every distinct boundary of each sampled history",
     generate,
